@@ -310,10 +310,13 @@ def generic_canon(v):
 
 
 def _opt_record(fn, args, stream, r):
-    """keep up to forty calls per public function (the first ones and then every seventh) for the `python -O` repetition"""
-    k = _OPT_COUNT.get(fn, 0)
-    _OPT_COUNT[fn] = k + 1
-    if k >= 12 and (k % 7 or sum(1 for x in OPT_POOL if x[0] == fn) >= 40):
+    """keep calls of every public function for the `python -O` repetition, stratified by outcome: per function up to sixty calls
+    that succeeded and up to thirty per error class (the first ten of each, then every fifth)"""
+    bucket = (fn, "ok" if r.ok else r.err)
+    k = _OPT_COUNT.get(bucket, 0)
+    _OPT_COUNT[bucket] = k + 1
+    kept_n = _OPT_COUNT.get(("kept",) + bucket, 0)
+    if kept_n >= (60 if r.ok else 30) or (k >= 10 and k % 5):
         return
     if sum(len(a) for a in args if isinstance(a, (bytes, bytearray, str))) > 20000:
         return      # very large arguments are exercised in this process only
@@ -321,6 +324,7 @@ def _opt_record(fn, args, stream, r):
         kept = copy.deepcopy(list(args))
     except Exception:  # noqa: BLE001
         return
+    _OPT_COUNT[("kept",) + bucket] = kept_n + 1
     outcome = ("ok\t" + generic_canon(r.value)) if r.ok else ("err\t" + r.err)
     OPT_POOL.append((fn, kept, stream, r.entropy, outcome))
 
@@ -564,8 +568,8 @@ def special_keys(rng, size, des=True, limit=None):
     """Key values a specification does not exclude but an implementation might treat specially: constant bytes, the DES weak and
     semi-weak keys (also with the parity bits cleared), such a component beside random ones in every position, repeated
     components, complements, ASCII text and ASCII hex digits. Every one of them is a key like any other for the properties."""
-    out = [bytes(size), b"\xff" * size, b"\x01" * size, b"\xfe" * size, b"\x80" + bytes(size - 1) if size else b"", bytes(size - 1) + b"\x01" if size else b"",
-           (b"0123456789ABCDEF" * 4)[:size], (b"0123456789abcdef" * 4)[:size], (b"Key material 42!" * 4)[:size]]
+    out = [bytes(size), b"\xff" * size, (b"0123456789ABCDEF" * 4)[:size], (b"0123456789abcdef" * 4)[:size], (b"Key material 42!" * 4)[:size], (b"FEDCBA9876543210" * 4)[:size],
+           b"\x01" * size, b"\xfe" * size, b"\x80" + bytes(size - 1) if size else b"", bytes(size - 1) + b"\x01" if size else b""]
     if des and size % 8 == 0 and size:
         n = size // 8
         comps = DES_WEAK + DES_SEMIWEAK + [bytes(8), b"\xff" * 8] + [bytes(b & 0xFE for b in k) for k in DES_WEAK[:2] + DES_SEMIWEAK[:2]]
@@ -820,7 +824,7 @@ def recheck_sample(cases, rng, limit=600):
     return n
 
 
-def optimised_recheck(limit=600):
+def optimised_recheck(limit=4000):
     """The calls kept by `_opt_record` (up to forty per public function, with the operating-system entropy each one drew) are
     repeated in a child interpreter started with `-O` - assert statements and `if __debug__` blocks are compiled away there:
     the library must not do any of its work inside an assert. Same outcome as in this process, call by call (randomised
